@@ -250,3 +250,13 @@ package soyjs
 //@   noterm
 //@   modifies *
 //@   requires[fixed-prefix;C14] jsok(funcStart)
+
+// C13: generating JavaScript for a file uses no package-level mutable state
+// (scratch buffers are per call), so the bytes written do not depend on what
+// the process generated before.
+//@ func Write
+//@   props C13
+//@   nosafety
+//@   noterm
+//@   modifies *
+//@   preserves G!github.com/robfig/soy/soyjs.* F!github.com/robfig/soy/ast.*
